@@ -34,7 +34,7 @@ ASSUMPTIONS = [
 LEVEL_TEXT = ("Random histories with more distinct requests than the capacity are checked step by step against a model; "
               "bounded by 40 steps, capacity <= 5 (the real 100 only in the thorough tier) and the fixed name universe.")
 LEVEL_NOTE = "trusts cryptography's x509 parsing of the returned certificates"
-QUICK_N, THOROUGH_N = 32_000, 600_000
+QUICK_N, THOROUGH_N = 24_000, 600_000
 
 DNS = ["a.x.test", "b.x.test", "c.b.x.test", "x.test", "*.x.test", "y.test"]
 IPS = ["10.0.0.1", "10.0.0.2", "::1"]
